@@ -1881,3 +1881,31 @@ def no_axisless_squeeze(prog, rep, rule):
                     "the result is (k,) instead of (1, k) for a single observation")
     rep.ok(rule, "formulae/", "evaluation path", f"no axis-less squeeze in {n} functions of terms/, utils, matrices, transforms",
            "positive control matched 2 of 3 calls")
+
+
+def ensure_kind_variable(f, p_):
+    """the visitor's operator kind `<p>.operator.kind` under a local name: the name of the existing temporary, or - when the
+    function uses the expression directly - a fresh temporary introduced at the top of the (model of the) function"""
+    for st_ in f.body:
+        if isinstance(st_, ast.Assign) and unparse(st_.value) == f"{p_}.operator.kind" and isinstance(st_.targets[0], ast.Name):
+            return st_.targets[0].id
+    txt = f"{p_}.operator.kind"
+    if not any(isinstance(n, ast.Attribute) and unparse(n) == txt for n in ast.walk(f.node)):
+        return None
+    if any(isinstance(n, ast.Name) and n.id == p_ and isinstance(n.ctx, ast.Store) for n in ast.walk(f.node)):
+        return None
+    kv = "otype__k"
+
+    class R(ast.NodeTransformer):
+        def visit_Attribute(self, n):
+            if isinstance(n.ctx, ast.Load) and unparse(n) == txt:
+                return ast.copy_location(ast.Name(id=kv, ctx=ast.Load()), n)
+            self.generic_visit(n)
+            return n
+
+    body = f.node.body
+    k0 = 1 if body and isinstance(body[0], ast.Expr) and isinstance(body[0].value, ast.Constant) and isinstance(body[0].value.value, str) else 0
+    new_body = body[:k0] + [ast.Assign(targets=[ast.Name(id=kv, ctx=ast.Store())], value=ast.parse(txt, mode="eval").body)] + [R().visit(b) for b in body[k0:]]
+    f.node.body = new_body
+    ast.fix_missing_locations(f.node)
+    return kv
